@@ -67,7 +67,7 @@ class Build:
         open(os.path.join(self.dir, "inc", "zck.h"), "w").write(src.replace("@version@", ver))
 
     def inc_flags(self):
-        return ["-I", os.path.join(self.dir, "inc"), "-I", os.path.join(REPO, "src/lib"),
+        return ["-I", os.path.join(VERIF, "env", "inc"), "-I", os.path.join(self.dir, "inc"), "-I", os.path.join(REPO, "src/lib"),
                 "-I", os.path.join(REPO, "include"), "-I", os.path.join(REPO, "src"),
                 "-I", os.path.join(VERIF, "env"), "-I", os.path.join(VERIF, "harness")]
 
@@ -311,6 +311,7 @@ def main():
     ap.add_argument("--keep", action="store_true")
     ap.add_argument("--replay", default=None)
     ap.add_argument("--jobs", type=int, default=16)
+    ap.add_argument("--build-only", action="store_true", help="build the goto binaries, print the cbmc commands, keep the build dir")
     a = ap.parse_args()
     pid = a.prop
     tier = a.tier if a.tier in ("quick", "thorough") else "quick"
@@ -364,6 +365,17 @@ def main():
                     bins[h["name"]] = futs[h["name"]].result()
                 except Exception as e:
                     inconclusive.append("build failed for %s: %s" % (h["name"], str(e)[-1500:]))
+        if a.build_only:
+            a.keep = True
+            for h in harnesses:
+                if h["name"] in bins:
+                    t = h.get(tier, {}) if isinstance(h.get(tier), dict) else {}
+                    us = t.get("unwindset", h.get("unwindset", []))
+                    print("cbmc %s --function %s --unwind %s %s %s %s" % (bins[h["name"]], h["function"], t.get("unwind", h.get("unwind", 1)),
+                          ("--unwindset " + ",".join(us)) if us else "", " ".join(CBMC_FLAGS), " ".join(SOLVERS[t.get("solver", h.get("solver", "default"))])))
+            for m in inconclusive:
+                print("INCONCLUSIVE:", m)
+            sys.exit(0)
         sched = MemSched(TOTAL_MEM_GB)
         with ThreadPoolExecutor(max_workers=a.jobs) as ex:
             futs = [(h, ex.submit(run_cbmc, bins[h["name"]], h, tier, sched, b.dir)) for h in harnesses if h["name"] in bins]
@@ -389,6 +401,10 @@ def main():
             for u in unw:
                 if u["status"] != "SUCCESS":
                     inconclusive.append("%s: unwinding assertion %s failed -> bound too small" % (hname, u["id"]))
+            nobody = [e for e in gen if e["status"] == "FAILURE" and ".no-body." in e["id"]]
+            for e in nobody:
+                inconclusive.append("%s: %s (harness does not link the callee)" % (hname, e["desc"]))
+            gen = [e for e in gen if e not in nobody]
             failed = [e for e in obl + gen if e["status"] == "FAILURE"]
             undecided = [e for e in obl + gen if e["status"] not in ("SUCCESS", "FAILURE")]
             rec["failed"] = failed
@@ -501,11 +517,11 @@ def main():
             r.get("n_obl", 0) + r.get("n_gen", 0), len(r.get("failed", []))))
     for path, hname, e in vio_out:
         log("VIOLATION property=%s replay=%s   [%s: %s @%s]" % (pid, path, hname, e["desc"], e["loc"]))
+    for m in inconclusive:
+        log("INCONCLUSIVE: %s" % m)
     if vio_out:
         sys.exit(1)
     if inconclusive:
-        for m in inconclusive:
-            log("INCONCLUSIVE: %s" % m)
         sys.exit(2)
     log("OK property=%s tier=%s harnesses=%d obligations=%d wall=%.1fs" % (pid, tier, len(recs), obligations, wall))
     sys.exit(0)
